@@ -133,7 +133,12 @@ class Harness:
         exp_args = tuple(dec(a) for a in spec.get("args", ()))
         exp_kwargs = {k: dec(v) for k, v in spec.get("kwargs", {}).items()}
 
+        flags = {"pre": False}
+
         def started(args, kwargs):
+            if flags["pre"]:
+                flags["pre"] = False  # already recorded by the synchronous entry (plaincall)
+                return
             info = h.ctx_info(flavour)
             hooks.emit("p.start", p=pid, flavour=flavour, argsok=(tuple(args) == exp_args and dict(kwargs) == exp_kwargs), **info)
 
@@ -269,6 +274,16 @@ class Harness:
                     if r[0] == "end":
                         return finish(r[1])
                     g["ack"].put(cmd["op"])
+        if spec.get("plaincall") and flavour in ("asyncio", "trio"):
+            # not an ``async def``: a plain callable that does its first piece of work when it is
+            # CALLED and hands back the coroutine for the rest - that first piece, too, belongs
+            # into the flavour's own thread and loop
+            coro_fn = payload
+
+            def payload(*args, **kwargs):  # noqa: F811
+                started(args, kwargs)
+                flags["pre"] = True
+                return coro_fn(*args, **kwargs)
         payload.__name__ = payload.__qualname__ = "payload_" + pid
         if spec.get("nomodule"):
             payload.__module__ = None  # e.g. a function made by exec() in a bare namespace
